@@ -11,14 +11,16 @@ SPEC = {
         "unconfirmed chain matches are cleared between blocks (generated: blocks::Scanner::scan body), so a chain never completes across blocks; modelled by scan_one being applied to each block separately",
         "snippet retention (Match::data, context window) is not modelled in Coq; its specification is evaluated on the implementation's outputs (S)",
     ],
-    "trusted_base": ["Gen/ScanState.v for the whole-file part (see C04)"],
+    "trusted_base": ["Gen/ScanState.v for the whole-file part (see C04) and for how verify_anchored_patterns makes the anchor relative to the block (overflowing_sub + skip)"],
 }
 
 RULE = ("virtual files of 120-620 bytes assembled from instances and near-misses of 2-5 patterns drawn from 13 kinds (text, nocase, wide, fullword, xor, "
         "hex with jumps, chained hex with a 210-260 gap, greedy regexps, word boundaries, wildcards, base64), at offset 0 and at the last byte too; "
         "partitions with 0-5 random cuts (through matches), dropped segments (gaps), segments extended by up to 11 bytes, arbitrary overlapping blocks, a shorter/longer block at the base "
         "of another, repeated blocks, empty blocks (also at a used base), no block at all, shuffled delivery; context size 0/3/16; block scanner fresh / converted from a used Scanner / reused after a "
-        "finished sequence; rules using `$p`, `$p at K`, `$p in (a..b)`, `#p >= n`. Reference: yara_x::Scanner::scan on every block alone. "
+        "finished sequence; rules using `$p`, `$p at K`, `$p in (a..b)`, `#p >= n`; in two thirds of the cases 1-2 rules `$a at N or $b [or true]` whose literal is anchored "
+        "(N in {0,1,2,4,7} or random), with copies of the literal placed after N at which blocks are made to start, and blocks with base = N, N+1, N-1: "
+        "the anchored pattern must be reported exactly when the literal is at N inside a delivered block, nowhere else. Reference: yara_x::Scanner::scan on every block alone. "
         "Plus 30 whole-file cases (filesize, uintN, hash, module fields, math x three histories). Distinct by (patterns, blocks, file prefix).")
 
 
